@@ -17,6 +17,11 @@ class Boom(Exception):
     """The exception the simulated 'writing code' raises."""
 
 
+class BoomBase(BaseException):
+    """Same, but not derived from Exception (like KeyboardInterrupt or GeneratorExit): try/finally
+    closes the element for these too."""
+
+
 class Mismatch(AssertionError):
     pass
 
@@ -61,9 +66,11 @@ def drive(writer, ops):
         elif k == 'catch':
             try:
                 drive(writer, op['children'])
-            except Boom:
+            except (Boom, BoomBase):
                 pass
         elif k == 'raise':
+            if op.get('base'):
+                raise BoomBase()
             raise Boom()
         else:
             raise ValueError('unknown op %r' % (k,))
@@ -103,9 +110,11 @@ def model(ops):
             elif k == 'catch':
                 try:
                     run(op['children'], items)
-                except Boom:
+                except (Boom, BoomBase):
                     pass
             elif k == 'raise':
+                if op.get('base'):
+                    raise BoomBase()
                 raise Boom()
     run(ops, top)
     return top
@@ -213,7 +222,7 @@ def check_document(doc):
     boom_escaped = False
     try:
         drive(w, doc['ops'])
-    except Boom:
+    except (Boom, BoomBase):
         boom_escaped = True
     xml = w.get_xml()
     enc = w.get_encoded_xml()
@@ -228,7 +237,7 @@ def check_document(doc):
         raise Mismatch('X1 document is not well-formed: %s\n%s' % (e, xml[:600]))
     try:
         want = model(doc['ops'])
-    except Boom:
+    except (Boom, BoomBase):
         raise Mismatch('harness: model let Boom escape')
     # outside the root element expat reports no character data
     compare(got, [it for it in want if it[0] != 'text'], True, '')
@@ -361,6 +370,8 @@ class Genome(object):
             elif sel in (3, 4):
                 if raise_ok:
                     out.append({'op': 'raise'})
+                    if self.below(4) == 3:
+                        out[-1]['base'] = True
                 else:
                     out.append({'op': 'text', 'text': self.text(8)})
             elif sel in (6, 7):
